@@ -4,7 +4,7 @@ PROP = dict(
     title="Breakpoints and single-stepping do not change execution results",
     family="debug", harness="debug", run_vo="Run/Debug.vo",
     theorems=["C32_same", "C32_before_once", "C32_resume_executes_first", "C32_events_exact", "C32_events_fresh",
-              "C32_stale_last_state_witness"],
+              "C32_historical_stale_last_state_witness_before_22c6df9"],
     open_statements=[
         "the interpreter is a PARAMETER of the theorems (arbitrary deterministic fetch/exec functions of the whole VM state): that the "
         "real instruction_inner / finalisation are functions of the interpreter state only, and that the debugger is consulted nowhere "
@@ -32,16 +32,17 @@ PROP = dict(
     rule=("scenarios: vmtrace grammar programs (0-3 contracts, calls, bounded loops, jal subroutines, panics, reverts, low gas limits; default, "
           "unit and randomised gas schedules) and every fifth scenario a hand-made tight loop (one-instruction self-jumps by ji/jnzi/jal running "
           "until out of gas, two-instruction counting loops, loops inside a contract called from a loop); per scenario 5 debugger configurations "
-          "out of: activated without breakpoints, single-stepping, breakpoints on all executed locations, random subsets incl. never-reached "
+          "(first: corpus cases of finding F9 — session abandoned at script offset 0, then breakpoint / single-stepping there) out of: activated without breakpoints, single-stepping, breakpoints on all executed locations, random subsets incl. never-reached "
           "locations and right-pc-wrong-contract, only jump targets of loops, only inside called contracts, random set/remove/clear/single API "
           "histories, configuration after a debug session abandoned on the same instance; each run = transact + resume after every event on the "
           "real Interpreter; the Gallina run_program/resume/drive run over the tape of executed locations must report exactly the same events; "
           "oracle: final state, receipts, outputs, storage, registers equal the undebugged run; every event carries the registers the reference "
-          "run had before that instruction, embedding with strictly increasing positions; events equal an independent prediction; "
+          "run had before that instruction, embedding with strictly increasing positions; events equal an independent prediction; after an abandoned "
+          "session no event is swallowed (class debugger-last-state-not-reset-after-abandoned-session, regression detector of repair 22c6df9); "
           "distinct = distinct (script prefix, steps, events); non-trivial = at least 3 instructions and 2 events"),
     level_text=("Machine-checked proof (Coq), for ANY interpreter step function, any set of breakpoints, single-stepping on or off and any "
-                "left-over debugger last state, over a function-by-function model of Debugger::eval_state / the per-instruction guard / "
-                "run_program / resume: resuming after every debug event until completion gives the final result of the undebugged run "
+                "left-over debugger last state (forgotten by transact: Debugger::clear_last_state in init_inner, repair 22c6df9), over a "
+                "function-by-function model of Debugger::eval_state / the per-instruction guard / run_program / resume / transact: resuming after every debug event until completion gives the final result of the undebugged run "
                 "(induction on the length of the undebugged run); the suspended states handed out with the events form a sublist of the "
                 "states in which the undebugged run is about to execute an instruction (events change nothing, come before the instruction, "
                 "at most one per arrival; resume executes the instruction at the reported location before consulting the debugger again); "
@@ -49,9 +50,9 @@ PROP = dict(
                 "replaying it over the locations executed by the real interpreter and comparing the reported events"),
     level_note=("Trusted: Coq kernel; the hand-written debugger model and the abstraction of the interpreter to deterministic functions of its "
                 "state (tied by correspondence testing, which is testing); vmtrace's reference run; harness. Not proved: termination (hypothesis), "
-                "determinism of the real instruction handlers. Observation recorded for C31: Debugger::last_state is not cleared by init_script, so "
-                "a session abandoned at the location where the next transaction starts swallows that transaction's first event "
-                "(C32_stale_last_state_witness; reproduced on the real code in the 'after-abandoned-session' configurations); results are unaffected."),
+                "determinism of the real instruction handlers. Finding F9 (last_state not cleared by init_script: an abandoned session swallowed the "
+                "next transaction's first event) is repaired by 22c6df9; the model follows the repaired code, the pre-repair behaviour is kept only as "
+                "the HISTORICAL lemma C32_historical_stale_last_state_witness_before_22c6df9 (drive_before_22c6df9)."),
     technique="Coq proof parametric in the interpreter (simulation by induction on the undebugged run) + replay of the model over real executed-location tapes",
     design_ref="6/C32",
 )
